@@ -44,8 +44,7 @@ class Candset(Component):
         fcfg = c04.fcfg_of(case)
         fcfg["op"] = case.get("op", ">=")
         f = calls.make_filter(ctx, fcfg, mk_tok(case["tok"]))
-        g = calls.make_filter(ctx, fcfg, mk_tok(case["tok"]))   # independent object for the spec
-        if f is None or g is None:
+        if f is None:
             return
         cs = case["candset"]
         C = gen.build_candset(cs)
@@ -57,6 +56,9 @@ class Candset(Component):
         rv = dict(zip([canon.cv(k) for k in calls.rkeys(case)], calls.rvals(case)))
         mask = []
         for a, b in zip(cs["l"], cs["r"]):
+            # the specification: a filter object of its own for every row, so that the verdict
+            # is a function of the value pair alone
+            g = calls.make_filter(ctx, fcfg, mk_tok(case["tok"]))
             mask.append(not ctx.lib(g.filter_pair, lv[canon.cv(a)], rv[canon.cv(b)]))
         exp = C.iloc[[i for i, keep in enumerate(mask) if keep]]
         desc = "%s(%s, %r, op=%s).filter_candset n_jobs=%r" % (
@@ -225,8 +227,7 @@ class LargeCandset(Component):
         t = max(1, case["tgrid"] // 12) if m == "OVERLAP" else case["tgrid"] / 100.0
         fcfg = {"type": ft, "measure": m, "threshold": t, "allow_missing": case["allow_missing"]}
         f = calls.make_filter(ctx, fcfg, mk_tok({"kind": "ws", "return_set": True}))
-        g = calls.make_filter(ctx, fcfg, mk_tok({"kind": "ws", "return_set": True}))
-        if f is None or g is None:
+        if f is None:
             return
         before = canon.snapshot(C)
         nj = case["n_jobs"]
@@ -240,6 +241,7 @@ class LargeCandset(Component):
         for i, j in zip(li, ri):
             k = (i, j)
             if k not in memo:
+                g = calls.make_filter(ctx, fcfg, mk_tok({"kind": "ws", "return_set": True}))
                 memo[k] = not ctx.lib(g.filter_pair, lv[i], rv[j])
             mask.append(memo[k])
         exp = C.iloc[[i for i, keep in enumerate(mask) if keep]]
